@@ -8,7 +8,8 @@ CONSTANTS Sizes, Hs, Ls, RRs, MaxLen
 PrmSet == {Params(h, l, rr, mf) : h \in Hs, l \in Ls, rr \in RRs, mf \in BOOLEAN}
 
 MCInit == /\ prm \in PrmSet /\ open = <<>> /\ out = <<>> /\ last = "new" /\ acc = <<>> /\ clean = TRUE
-DoPush == \E s \in Sizes : last # "fin" /\ Len(acc) < MaxLen /\ Push(s)
+DoPush == /\ last # "fin" /\ Len(acc) < MaxLen
+          /\ \E s \in Sizes : Push(s)
 DoFinish == last # "fin" /\ Finish
 MCNext == DoPush \/ DoFinish
 MCSpec == MCInit /\ [][MCNext]_bvars
